@@ -112,12 +112,16 @@ func vC17Open(stored, master []byte) ([]byte, bool) {
 
 type vC17Codec struct {
 	inner encryption.Codec
-	mu    sync.Mutex
-	fail  map[string]bool // values whose Seal fails (injected)
-	sites []string        // Seal call sites since the last reset
-	seals int
+	sh    *vC17Shared
+}
+
+// what the wrappers installed on the replicas of one behaviour share
+type vC17Shared struct {
+	mu     sync.Mutex
+	fail   map[string]bool // values whose Seal fails (injected)
+	sites  []string        // Seal call sites since the last reset
+	seals  int
 	failed map[string]bool // values whose Seal was refused (the injected failure was delivered)
-	lines []int // lines of the Seal call sites in messageProcessingLoop, in source order
 }
 
 var vC17SealLines []int
@@ -138,7 +142,8 @@ func vC17FindSealLines(file string) {
 	})
 }
 
-func (c *vC17Codec) Seal(v []byte) ([]byte, error) {
+func (w *vC17Codec) Seal(v []byte) ([]byte, error) {
+	c := w.sh
 	site := "?"
 	if _, file, line, ok := runtime.Caller(1); ok {
 		vC17FindSealLines(file)
@@ -162,12 +167,12 @@ func (c *vC17Codec) Seal(v []byte) ([]byte, error) {
 	if failing {
 		return nil, fmt.Errorf("injected seal failure")
 	}
-	return c.inner.Seal(v)
+	return w.inner.Seal(v)
 }
 
-func (c *vC17Codec) Read(v []byte) ([]byte, error) { return c.inner.Read(v) }
+func (w *vC17Codec) Read(v []byte) ([]byte, error) { return w.inner.Read(v) }
 
-func (c *vC17Codec) count() int {
+func (c *vC17Shared) count() int {
 	c.mu.Lock()
 	defer c.mu.Unlock()
 	return c.seals
@@ -187,17 +192,20 @@ type vC17Entry struct {
 }
 
 type vC17State struct {
-	Up     bool                   `json:"up"`
-	Env    string                 `json:"env"`
-	HK     map[string]string      `json:"hk"`
-	Paused map[string]bool        `json:"paused"`
-	Log    map[string][]vC17Entry `json:"log"`
+	Up     bool                              `json:"up"`
+	Env    string                            `json:"env"`
+	Lead   map[string]string                 `json:"lead"`
+	HK     map[string]map[string]string      `json:"hk"`  // replica -> stream -> key
+	Paused map[string]bool                   `json:"paused"`
+	Log    map[string]map[string][]vC17Entry `json:"log"` // replica -> stream -> entries
 }
 
 type vC17Run struct {
 	t       *testing.T
-	cfg     *Config
-	srv     *Server
+	cfg     *Config            // configuration of the first server
+	srvs    map[string]*Server // replica id -> server
+	cfgs    map[string]*Config
+	reps    []string
 	nc      *nats.Conn
 	bid     int
 	seed    int64
@@ -207,15 +215,60 @@ type vC17Run struct {
 	vals    map[int][]byte    // published value bytes by id
 	order   []int
 	pub     map[string][]int // ids published to each stream, in order
-	wrapper *vC17Codec
-	lastLog map[string][]vC17Entry
-	raw     map[string][][]byte
+	wrapper *vC17Shared
+	lastLog map[string][]vC17Entry // key: replica/stream
+	raw     map[string][][]byte    // key: replica/stream
 	ackSub  *nats.Subscription
 	ackCh   chan *nats.Msg
 }
 
-func (r *vC17Run) part(s string) *partition {
-	return r.srv.metadata.GetPartition(r.streams[s], 0)
+func (r *vC17Run) partAt(rep, s string) *partition {
+	return r.srvs[rep].metadata.GetPartition(r.streams[s], 0)
+}
+
+// leaderOf: the replica that leads the partition of stream s (as the first server's metadata has it)
+func (r *vC17Run) leaderOf(s string) string {
+	p := r.partAt(r.reps[0], s)
+	if p == nil {
+		vC17Fail("partition of %s is gone", s)
+	}
+	l, _ := p.GetLeader()
+	if _, ok := r.srvs[l]; !ok {
+		vC17Fail("partition of %s is led by %q", s, l)
+	}
+	return l
+}
+
+// replica resolves "L" (the replica leading stream s now) / "F" (the other one) / a replica id
+func (r *vC17Run) replica(name, s string) string {
+	l := r.leaderOf(s)
+	switch name {
+	case "L":
+		return l
+	case "F":
+		for _, rep := range r.reps {
+			if rep != l {
+				return rep
+			}
+		}
+		return l
+	}
+	return name
+}
+
+// part: the leader's partition object
+func (r *vC17Run) part(s string) *partition { return r.partAt(r.leaderOf(s), s) }
+
+// srv: a server to send requests to (the leader of the encrypted stream)
+func (r *vC17Run) srv() *Server { return r.srvs[r.leaderOf("enc")] }
+
+func (r *vC17Run) allUp() bool {
+	for _, srv := range r.srvs {
+		if !srv.IsRunning() {
+			return false
+		}
+	}
+	return true
 }
 
 func (r *vC17Run) value(v vC17Val) []byte {
@@ -287,8 +340,8 @@ func (r *vC17Run) idIn(s string, b []byte, used map[int]bool) int {
 	return r.idOf(b, 0)
 }
 
-func (r *vC17Run) readRaw(s string) [][]byte {
-	p := r.part(s)
+func (r *vC17Run) readRaw(rep, s string) [][]byte {
+	p := r.partAt(rep, s)
 	newest := p.log.NewestOffset()
 	out := [][]byte{}
 	if newest < 0 {
@@ -313,16 +366,19 @@ func (r *vC17Run) readRaw(s string) [][]byte {
 	}
 }
 
-func (r *vC17Run) project(s string) []vC17Entry {
-	p := r.part(s)
+func (r *vC17Run) project(rep, s string) []vC17Entry {
+	p := r.partAt(rep, s)
 	if p == nil {
-		vC17Fail("partition of %s is gone", s)
+		vC17Fail("partition of %s on %s is gone", s, rep)
 	}
 	if p.IsPaused() {
-		return r.lastLog[s] // a paused partition's log is closed: last known contents
+		if r.lastLog[rep+"/"+s] == nil {
+			return []vC17Entry{}
+		}
+		return r.lastLog[rep+"/"+s] // a paused partition's log is closed: last known contents
 	}
-	raws := r.readRaw(s)
-	r.raw[s] = raws
+	raws := r.readRaw(rep, s)
+	r.raw[rep+"/"+s] = raws
 	out := []vC17Entry{}
 	used := map[int]bool{}
 	for _, raw := range raws {
@@ -346,7 +402,7 @@ func (r *vC17Run) project(s string) []vC17Entry {
 		}
 		out = append(out, e)
 	}
-	r.lastLog[s] = out
+	r.lastLog[rep+"/"+s] = out
 	return out
 }
 
@@ -373,49 +429,100 @@ func (r *vC17Run) handlerKey(p *partition) string {
 }
 
 func (r *vC17Run) state() vC17State {
-	st := vC17State{Up: r.srv.IsRunning(), Env: r.env, HK: map[string]string{}, Paused: map[string]bool{}, Log: map[string][]vC17Entry{}}
+	st := vC17State{Up: r.allUp(), Env: r.env, Lead: map[string]string{}, HK: map[string]map[string]string{},
+		Paused: map[string]bool{}, Log: map[string]map[string][]vC17Entry{}}
 	for _, s := range []string{"enc", "plain"} {
-		p := r.part(s)
-		st.HK[s] = r.handlerKey(p)
-		st.Paused[s] = p.IsPaused()
-		st.Log[s] = r.project(s)
+		st.Lead[s] = r.leaderOf(s)
+		st.Paused[s] = r.part(s).IsPaused()
+	}
+	for _, rep := range r.reps {
+		st.HK[rep], st.Log[rep] = map[string]string{}, map[string][]vC17Entry{}
+		for _, s := range []string{"enc", "plain"} {
+			st.HK[rep][s] = r.handlerKey(r.partAt(rep, s))
+			st.Log[rep][s] = r.project(rep, s)
+		}
 	}
 	return st
 }
 
-func (r *vC17Run) waitLeader(s string) *partition {
-	var p *partition
-	vC17Wait("partition leader "+s, func() bool {
-		p = r.part(s)
-		if p == nil {
-			return false
+// settle: every replica holds what the leader holds and knows it is committed
+func (r *vC17Run) settle(s string) {
+	lp := r.part(s)
+	if lp.IsPaused() {
+		return
+	}
+	vC17Wait("replicas of "+s+" in sync", func() bool {
+		for _, rep := range r.reps {
+			p := r.partAt(rep, s)
+			if p == nil || p.IsPaused() {
+				return false
+			}
+			if p.log.NewestOffset() != lp.log.NewestOffset() || p.log.HighWatermark() != lp.log.NewestOffset() {
+				return false
+			}
 		}
-		if p.IsPaused() {
-			return true
-		}
-		l, _ := p.GetLeader()
-		return l == r.cfg.Clustering.ServerID && p.IsLeader()
+		return true
 	})
-	return p
 }
 
+// waitLeader: every replica has the partition, agrees on the leader, the leader leads and the others follow
+func (r *vC17Run) waitLeader(s string) {
+	vC17Wait("partition of "+s+" started on every replica", func() bool {
+		leader := ""
+		for _, rep := range r.reps {
+			p := r.partAt(rep, s)
+			if p == nil {
+				return false
+			}
+			l, _ := p.GetLeader()
+			if leader == "" {
+				leader = l
+			}
+			if l != leader {
+				return false
+			}
+		}
+		if _, ok := r.srvs[leader]; !ok {
+			return false
+		}
+		for _, rep := range r.reps {
+			p := r.partAt(rep, s)
+			if p.IsPaused() {
+				continue
+			}
+			p.mu.RLock()
+			leading, following := p.isLeading, p.isFollowing
+			p.mu.RUnlock()
+			if (rep == leader && !leading) || (rep != leader && !following) {
+				return false
+			}
+		}
+		return true
+	})
+}
+
+// install puts the recording wrapper around the real handler of every replica's encrypted partition
 func (r *vC17Run) install() {
-	p := r.waitLeader("enc")
+	r.waitLeader("enc")
 	r.waitLeader("plain")
-	if !r.wrap || p.encryptionHandler == nil {
+	if !r.wrap {
 		return
 	}
-	if _, ok := p.encryptionHandler.(*vC17Codec); ok {
-		return
+	for _, rep := range r.reps {
+		p := r.partAt(rep, "enc")
+		if p.encryptionHandler == nil {
+			continue
+		}
+		if _, ok := p.encryptionHandler.(*vC17Codec); ok {
+			continue
+		}
+		if r.wrapper == nil {
+			r.wrapper = &vC17Shared{fail: map[string]bool{}}
+		}
+		p.mu.Lock()
+		p.encryptionHandler = &vC17Codec{inner: p.encryptionHandler, sh: r.wrapper}
+		p.mu.Unlock()
 	}
-	fail := map[string]bool{}
-	if r.wrapper != nil {
-		fail = r.wrapper.fail
-	}
-	r.wrapper = &vC17Codec{inner: p.encryptionHandler, fail: fail}
-	p.mu.Lock()
-	p.encryptionHandler = r.wrapper
-	p.mu.Unlock()
 }
 
 func (r *vC17Run) connect() {
@@ -469,9 +576,15 @@ func (r *vC17Run) publish(s string, vals []vC17Val, fails []int, how string) ([]
 	// the step is executed as it is and recorded)
 	acks := make([]string, len(vals))
 	codes := make([]string, len(vals))
+	// a replicated stream: acknowledged once every in-sync replica has the message
+	policy := client.AckPolicy_LEADER
+	if len(r.reps) > 1 {
+		policy = client.AckPolicy_ALL
+	}
+	ackSrv := r.srvs[r.leaderOf(s)]
 	if how == "api" {
 		ctx, cancel := context.WithTimeout(context.Background(), vC17Deadline)
-		resp, err := r.srv.api.Publish(ctx, &client.PublishRequest{Stream: stream, Value: data[0], AckPolicy: client.AckPolicy_LEADER})
+		resp, err := r.srv().api.Publish(ctx, &client.PublishRequest{Stream: stream, Value: data[0], AckPolicy: policy})
 		timedOut := ctx.Err() != nil
 		cancel()
 		switch {
@@ -488,7 +601,7 @@ func (r *vC17Run) publish(s string, vals []vC17Val, fails []int, how string) ([]
 		msgs := make([][]byte, len(vals))
 		for i, v := range vals {
 			m, err := proto.MarshalPublish(&client.Message{Value: data[i], Stream: stream, Subject: stream,
-				AckInbox: fmt.Sprintf("c17ack.%d.%d", r.bid, v.ID), CorrelationId: strconv.Itoa(v.ID), AckPolicy: client.AckPolicy_LEADER})
+				AckInbox: fmt.Sprintf("c17ack.%d.%d", r.bid, v.ID), CorrelationId: strconv.Itoa(v.ID), AckPolicy: policy})
 			if err != nil {
 				vC17Fail("marshal: %v", err)
 			}
@@ -575,7 +688,7 @@ func (r *vC17Run) publish(s string, vals []vC17Val, fails []int, how string) ([]
 				if !onlyRefused {
 					continue
 				}
-				r.srv.ncAcks.Flush()
+				ackSrv.ncAcks.Flush()
 				r.nc.Flush()
 				time.Sleep(50 * time.Millisecond)
 				for more := true; more; {
@@ -603,10 +716,11 @@ func (r *vC17Run) publish(s string, vals []vC17Val, fails []int, how string) ([]
 		sites = append(sites, r.wrapper.sites...)
 		r.wrapper.mu.Unlock()
 	}
+	r.settle(s)
 	return acks, sites, codes
 }
 
-func (r *vC17Run) subscribe(s string, from int64, rev bool) ([]int, string, string) {
+func (r *vC17Run) subscribe(s string, from int64, rev bool, at string) ([]int, string, string) {
 	ctx, cancel := context.WithTimeout(context.Background(), vC17Deadline)
 	defer cancel()
 	got := []int{}
@@ -615,12 +729,16 @@ func (r *vC17Run) subscribe(s string, from int64, rev bool) ([]int, string, stri
 	if rev { // from `from` down to the oldest message
 		req.StopPosition, req.Reverse = client.StopPosition_STOP_ON_CANCEL, true
 	}
-	sub, err := r.srv.api.SubscribeInternal(ctx, req)
+	if _, ok := r.srvs[at]; !ok {
+		vC17Fail("no replica %q", at)
+	}
+	req.ReadISRReplica = at != r.leaderOf(s) // served by an in-sync follower
+	sub, err := r.srvs[at].api.SubscribeInternal(ctx, req)
 	if err != nil {
 		return got, "err", "subscribe: " + err.Error()
 	}
 	defer sub.Close()
-	log := r.lastLog[s]
+	log := r.lastLog[at+"/"+s]
 	for {
 		select {
 		case m := <-sub.Messages():
@@ -641,8 +759,11 @@ func (r *vC17Run) subscribe(s string, from int64, rev bool) ([]int, string, stri
 }
 
 // tamper alters one byte of region reg of the stored value of entry j (1-based) in the segment file
-func (r *vC17Run) tamper(j int, reg string) string {
-	raws := r.raw["enc"]
+func (r *vC17Run) tamper(at string, j int, reg string) string {
+	if _, ok := r.cfgs[at]; !ok {
+		vC17Fail("no replica %q", at)
+	}
+	raws := r.raw[at+"/enc"]
 	if j < 1 || j > len(raws) {
 		vC17Fail("tamper: no entry %d", j)
 	}
@@ -671,7 +792,7 @@ func (r *vC17Run) tamper(j int, reg string) string {
 	rng := rand.New(rand.NewSource(r.seed + int64(r.bid)*31 + int64(j)))
 	pos := st + rng.Intn(ln)
 	mask := []byte{0x01, 0x80, 0xff}[rng.Intn(3)]
-	dir := filepath.Join(r.cfg.DataDir, "streams", r.streams["enc"], "0")
+	dir := filepath.Join(r.cfgs[at].DataDir, "streams", r.streams["enc"], "0")
 	files, _ := filepath.Glob(filepath.Join(dir, "*.log"))
 	sort.Strings(files)
 	for _, f := range files {
@@ -717,12 +838,60 @@ func (r *vC17Run) tamper(j int, reg string) string {
 	return ""
 }
 
-func vC17StartServer(t *testing.T, bcfg map[string]interface{}) (*Server, *Config) {
-	cfg := vOneNodeConfig(t, "a")
+// leaderChange: the follower reports the partition leader to the metadata leader (what it does when
+// the leader does not answer); with two replicas one report is a quorum and the controller hands the
+// partition to the other in-sync replica.  Both servers keep running, the old leader becomes a follower.
+func (r *vC17Run) leaderChange(s string) string {
+	if len(r.reps) < 2 {
+		vC17Fail("leader change needs a second replica")
+	}
+	old := r.leaderOf(s)
+	r.settle(s)
+	_, epoch := r.part(s).GetLeader()
+	reporter := ""
+	for _, rep := range r.reps {
+		if rep != old {
+			reporter = rep
+		}
+	}
+	ctx, cancel := context.WithTimeout(context.Background(), vC17Deadline)
+	st := r.srvs[reporter].metadata.ReportLeader(ctx, &proto.ReportLeaderOp{Stream: r.streams[s], Partition: 0,
+		Replica: reporter, Leader: old, LeaderEpoch: epoch})
+	cancel()
+	if st != nil {
+		vC17Fail("report leader: %v", st.Err())
+	}
+	vC17Wait("new leader of "+s, func() bool { return r.leaderOf(s) != old })
+	r.waitLeader(s)
+	r.settle(s)
+	return r.leaderOf(s)
+}
+
+func vC17Tune(cfg *Config, bcfg map[string]interface{}) *Config {
 	cfg.BatchMaxMessages = int(vIntDef(bcfg, "batchMax", 3))
 	cfg.BatchMaxTime = time.Duration(vIntDef(bcfg, "batchWaitMs", 60)) * time.Millisecond
 	cfg.Streams.Encryption = vStrDef(bcfg, "encby", "request") == "serverconfig"
-	return vOneNodeServer(t, cfg), cfg
+	// no spontaneous ISR changes or failovers; followers learn the high watermark quickly
+	cfg.Clustering.ReplicaMaxLagTime = time.Hour
+	cfg.Clustering.ReplicaMaxLeaderTimeout = time.Hour
+	cfg.Clustering.ReplicaMaxIdleWait = 20 * time.Millisecond
+	return cfg
+}
+
+// vC17StartServers starts one server, or two servers forming one cluster
+func vC17StartServers(t *testing.T, bcfg map[string]interface{}) (map[string]*Server, map[string]*Config) {
+	cfgA := vC17Tune(vOneNodeConfig(t, "a"), bcfg)
+	srvs := map[string]*Server{"a": vOneNodeServer(t, cfgA)}
+	cfgs := map[string]*Config{"a": cfgA}
+	if vIntDef(bcfg, "replicas", 1) > 1 {
+		cfgB := vC17Tune(vJoinConfig(t, "b", cfgA), bcfg)
+		srvB, err := RunServerWithConfig(cfgB)
+		if err != nil {
+			t.Fatalf("INCONCLUSIVE: second server did not start: %v", err)
+		}
+		srvs["b"], cfgs["b"] = srvB, cfgB
+	}
+	return srvs, cfgs
 }
 
 func TestVerifC17Server(t *testing.T) {
@@ -751,14 +920,18 @@ func TestVerifC17Server(t *testing.T) {
 	}()
 	defer os.RemoveAll(storagePath)
 
-	var srv *Server
-	var cfg *Config
+	var srvs map[string]*Server
+	var cfgs map[string]*Config
 	srvKey := ""
-	defer func() {
-		if srv != nil {
-			srv.Stop()
+	stopAll := func() {
+		for _, id := range []string{"b", "a"} {
+			if srv := srvs[id]; srv != nil {
+				srv.Stop()
+			}
 		}
-	}()
+		srvs = nil
+	}
+	defer stopAll()
 	defer func() {
 		if x := recover(); x != nil {
 			tw.w.Flush()
@@ -786,26 +959,41 @@ func TestVerifC17Server(t *testing.T) {
 	}()
 
 	for _, b := range sf.Behaviours {
-		key := fmt.Sprintf("%v/%v/%v", b.Cfg["batchMax"], b.Cfg["batchWaitMs"], b.Cfg["encby"])
+		key := fmt.Sprintf("%v/%v/%v/%v", b.Cfg["batchMax"], b.Cfg["batchWaitMs"], b.Cfg["encby"], vIntDef(b.Cfg, "replicas", 1))
 		vC17SetEnv("k1")
-		if srv == nil || key != srvKey {
-			if srv != nil {
-				srv.Stop()
+		if srvs == nil || key != srvKey {
+			if srvs != nil {
+				stopAll()
 				os.RemoveAll(storagePath)
 			}
-			srv, cfg = vC17StartServer(t, b.Cfg)
+			srvs, cfgs = vC17StartServers(t, b.Cfg)
 			srvKey = key
 		}
-		r := &vC17Run{t: t, cfg: cfg, srv: srv, bid: b.ID, seed: vIntDef(b.Cfg, "seed", 1), wrap: vBool(b.Cfg, "wrap"), env: "k1",
+		reps := []string{"a"}
+		if srvs["b"] != nil {
+			reps = append(reps, "b")
+		}
+		cfg, srv := cfgs["a"], srvs["a"]
+		r := &vC17Run{t: t, cfg: cfg, srvs: srvs, cfgs: cfgs, reps: reps, bid: b.ID, seed: vIntDef(b.Cfg, "seed", 1), wrap: vBool(b.Cfg, "wrap"), env: "k1",
 			streams: map[string]string{"enc": fmt.Sprintf("c17e-%d", b.ID), "plain": fmt.Sprintf("c17p-%d", b.ID)},
-			vals:    map[int][]byte{}, pub: map[string][]int{}, lastLog: map[string][]vC17Entry{"enc": {}, "plain": {}}, raw: map[string][][]byte{}}
+			vals:    map[int][]byte{}, pub: map[string][]int{}, lastLog: map[string][]vC17Entry{}, raw: map[string][][]byte{}}
 		for s, name := range r.streams {
 			req := &client.CreateStreamRequest{Name: name, Subject: name, Encryption: &client.NullableBool{Value: s == "enc"}}
 			if s == "enc" && cfg.Streams.Encryption {
 				req.Encryption = nil // encrypted because the server configuration says so
 			}
-			if _, err := srv.api.CreateStream(context.Background(), req); err != nil {
-				vC17Fail("create stream: %v", err)
+			req.ReplicationFactor = int32(len(reps))
+			// the second server may not have joined the cluster yet
+			deadline := time.Now().Add(vC17Deadline)
+			for {
+				_, err := srv.api.CreateStream(context.Background(), req)
+				if err == nil {
+					break
+				}
+				if len(reps) == 1 || time.Now().After(deadline) {
+					vC17Fail("create stream: %v", err)
+				}
+				time.Sleep(50 * time.Millisecond)
 			}
 		}
 		r.install()
@@ -818,6 +1006,17 @@ func TestVerifC17Server(t *testing.T) {
 			for k, v := range step {
 				if k != "a" {
 					args[k] = v
+				}
+			}
+			// a replica given as a role is resolved now (the recorded arguments name the server)
+			switch a {
+			case "Subscribe":
+				args["at"], args["rev"] = r.replica(vStrDef(step, "at", "a"), vStr(step, "s")), vBool(step, "rev")
+			case "Tamper":
+				args["r"] = r.replica(vStrDef(step, "r", "a"), "enc")
+			case "Publish":
+				if _, ok := args["fails"]; !ok {
+					args["fails"] = []int{}
 				}
 			}
 			intent(map[string]interface{}{"t": b.ID, "step": sn, "a": a, "args": args})
@@ -837,15 +1036,22 @@ func TestVerifC17Server(t *testing.T) {
 				acks, sites, codes := r.publish(vStr(step, "s"), vals, fails, vStrDef(step, "how", "b2b"))
 				obs["acks"], obs["sites"], obs["codes"] = acks, sites, codes
 			case "Subscribe":
-				args["rev"] = vBool(step, "rev")
-				got, end, msg := r.subscribe(vStr(step, "s"), vInt(step, "from"), vBool(step, "rev"))
+				at := args["at"].(string)
+				got, end, msg := r.subscribe(vStr(step, "s"), vInt(step, "from"), vBool(step, "rev"), at)
 				obs["got"], obs["end"], obs["msg"] = got, end, msg
 			case "Pause":
 				name := r.streams[vStr(step, "s")]
 				if _, err := srv.api.PauseStream(context.Background(), &client.PauseStreamRequest{Name: name, Partitions: []int32{0}}); err != nil {
 					vC17Fail("pause: %v", err)
 				}
-				vC17Wait("paused", func() bool { return r.part(vStr(step, "s")).IsPaused() })
+				vC17Wait("paused", func() bool {
+					for _, rep := range r.reps {
+						if !r.partAt(rep, vStr(step, "s")).IsPaused() {
+							return false
+						}
+					}
+					return true
+				})
 			case "Resume":
 				ctx, cancel := context.WithTimeout(context.Background(), vC17Deadline)
 				err := srv.api.resumeStream(ctx, r.streams[vStr(step, "s")], 0)
@@ -853,23 +1059,37 @@ func TestVerifC17Server(t *testing.T) {
 				if err != nil {
 					vC17Fail("resume: %v", err)
 				}
-				vC17Wait("resumed", func() bool { return !r.part(vStr(step, "s")).IsPaused() })
+				vC17Wait("resumed", func() bool {
+					for _, rep := range r.reps {
+						if r.partAt(rep, vStr(step, "s")).IsPaused() {
+							return false
+						}
+					}
+					return true
+				})
 				r.install()
+				r.settle(vStr(step, "s"))
 			case "SetEnv":
 				r.env = vStr(step, "k")
 				vC17SetEnv(r.env)
+			case "LeaderChange":
+				obs["leader"] = r.leaderChange(vStr(step, "s"))
 			case "Restart":
+				if len(reps) > 1 {
+					vC17Fail("restart of a two-server cluster is not supported by this harness")
+				}
 				r.disconnect()
 				if err := srv.Stop(); err != nil {
 					vC17Fail("stop: %v", err)
 				}
 				srv = vOneNodeServer(t, cfg)
-				r.srv = srv
+				srvs["a"] = srv
 				r.wrapper = nil
 				r.install()
 				r.connect()
 			case "Tamper":
-				obs["what"] = r.tamper(int(vInt(step, "j")), vStr(step, "reg"))
+				at := args["r"].(string)
+				obs["what"] = r.tamper(at, int(vInt(step, "j")), vStr(step, "reg"))
 			case "CreateProbe":
 				name := fmt.Sprintf("c17probe-%d-%d", b.ID, sn)
 				_, err := srv.api.CreateStream(context.Background(), &client.CreateStreamRequest{Name: name, Subject: name,
